@@ -514,10 +514,15 @@ func RunC17(t *testing.T) {
 	if err != nil {
 		t.Fatalf("HARNESS %v", err)
 	}
-	w.Exec(sim.TxOp("admin:UpdateOwner", &types.MsgUpdateOwner{From: sim.Acct(0), NewOwner: sim.Acct(4)}))
+	op := sim.TxOp("admin:UpdateOwner", &types.MsgUpdateOwner{From: sim.Acct(0), NewOwner: sim.Acct(4)})
+	w.Exec(op)
 	probe := &c17hist{}
 	if v := probe.roundTrip(w, 1); v != nil && v.Sig != sigPendingOwner {
-		t.Fatalf("HARNESS directed case fails differently: %s", v)
+		// the directed case fails in another way than the listed finding: that is a violation of its own
+		cs := &sim.Case{Property: "C17", Gen: gs, Ops: []*sim.Op{op}}
+		cs.Finalize()
+		saveFail("C17", "history", cs, v)
+		t.Fatalf("VIOLATION %s", v)
 	} else if v == nil && probe.known {
 		k := isKnown("C17", sigPendingOwner)
 		fmt.Printf("KNOWN-FINDING: property=C17 %s\n", k.Text)
